@@ -8,6 +8,7 @@
                                    | (def K stmt*)                    parse executable K (its constant nodes are
                                                                       allocated now, once)
                                    | (run K)                          run executable K in the main context
+                                   | (flag e)                         value and LVALUE flag of the result cell of e (probe op exprf)
   stmt ::= (let NAME e) | (do e) | (return e)
   e    ::= (lit V) | (var NAME) | (un OP e) | (bin OP e e) | (member M e e*) | (item e N) | (setitem e N e)
          | (call tab) | (call tab e e) | (call tup e*) | (fcall NAME e*)
@@ -141,6 +142,15 @@ def step (fuel : Nat) (d : DS) : S → Option DS
       let d' := { d with xs := s' }
       pure { d' with out := d'.out ++ ["ok#" ++ dumpStr d'] }
     | r => pure { d with dead := true, out := d.out ++ [outcomeStr r ++ "#"] }
+  | .list [.atom "flag", e] => do
+    -- C05R4: evaluate an expression (a freshly parsed node: its literals are new constant nodes) and report the value and the
+    -- LVALUE flag of the RESULT cell (`getX`: the flag of the root), as the probe op `exprf` does; then the statement ends
+    if d.dead then pure { d with out := d.out ++ ["stop"] } else
+    let (x, (tr1, sc)) ← (toX 1000 e).run (d.tr, d.scope)
+    let d1 := sync { d with tr := tr1, scope := sc }
+    match XM.bind (evalX d1.funs fuel x) (fun loc => XM.bind (xget loc) (fun c => XM.bind xendStatement (fun _ => XM.pure c))) d1.xs with
+    | .ok (c, s') => pure { d1 with xs := s', out := d1.out ++ ["ok#" ++ valStr c.val ++ (if c.lv then "/l" else "/t")] }
+    | r => pure { d1 with dead := true, out := d1.out ++ [outcomeStr r ++ "#"] }
   | _ => none
 
 def runScript (fuel : Nat) (items : List S) : Option DS :=
